@@ -210,8 +210,10 @@ def run(ctx):
     chain(ctx)
     from .. import system
     system.run(ctx, 'C04')
+    from .. import session
+    session.run(ctx, 'png', nseq=(24 if ctx.quick else 300))
     # label-picture histories: only commands that write or replace .p8.png files (incl. the user's cp), deeper
-    system.run(ctx, 'C04', nseq=(40 if ctx.quick else 400), depth=7, mode='png')
+    system.run(ctx, 'C04', nseq=(64 if ctx.quick else 400), depth=7, mode='png')
 
 
 def chain(ctx):
